@@ -55,3 +55,91 @@ Example C14_ex : wf_hist (sinit 3 (-1)) [Append [1;2]; Append [3;4;5;6]; Invalid
                            ReadS None None; ReadFilled 0 8 9; Bounds])
   = [ONone; ONone; ONone; ONone; ONone; OData [4;5;7]; OData [9;9;9;4;5;7;9;9]; OBounds 3 6].
 Proof. vm_compute. split; reflexivity. Qed.
+
+(* ====================================================================================
+   Extension: the public index translation, reads stated against the history alone, crossed
+   plain reads.  Proofs in Buffer/ProofsX.v, specifications in Buffer/SpecX.v. *)
+From PV Require Import Buffer.SpecX Buffer.ProofsX.
+
+(* samples_to_index / time_to_index after EVERY well-formed history is the translation the abstract
+   view prescribes (newest sample at the right end of a store of `scap` slots), for every sample number *)
+Theorem C14_index_refines : forall c fill ops, 1 <= c -> wf_hist (sinit c fill) ops = true ->
+  forall i, samples_to_index (fst (run (binit c fill) ops)) i
+            = spec_index (fst (spec_run (sinit c fill) ops)) i.
+Proof. exact index_refines. Qed.
+Print Assumptions C14_index_refines.
+
+(* ... the reported bounds translate to the valid-start index and to the capacity, every sample inside
+   the window translates to an index ilb <= k < capacity, and the CONCRETE storage slot at that index holds
+   exactly that sample of the logical stream (`logical ops`: a function of the history alone) *)
+Theorem C14_index_in_window : forall c fill ops b, 1 <= c -> wf_hist (sinit c fill) ops = true ->
+  fst (run (binit c fill) ops) = b ->
+  zlen (buf b) = cap b /\
+  samples_to_index b (samples_lb b) = ilb b /\
+  samples_to_index b (samples_ub b) = cap b /\
+  forall i, samples_lb b <= i < samples_ub b ->
+    0 <= ilb b <= samples_to_index b i /\ samples_to_index b i < cap b /\
+    nth (Z.to_nat (samples_to_index b i)) (buf b) 0 = nth (Z.to_nat i) (logical ops) 0.
+Proof. exact index_in_window. Qed.
+Print Assumptions C14_index_in_window.
+
+(* the abstract stream is a function of the history alone (appends concatenated, an invalidation cuts it
+   back); without invalidations it is the concatenation of everything appended *)
+Theorem C14_stream_is_history : forall c fill ops,
+  stream (fst (spec_run (sinit c fill) ops)) = logical ops /\
+  (no_invalidate ops = true -> logical ops = appended ops).
+Proof. exact stream_is_history. Qed.
+Print Assumptions C14_stream_is_history.
+
+(* Reads after EVERY well-formed history, in terms of the history and the reported bounds only: the upper
+   bound is the length of the logical stream; a range read returns exactly samples [a, e) of the logical
+   stream when the range lies inside the reported bounds and raises IndexError otherwise; a filled read
+   returns, position by position, the stream sample inside the bounds and the fill value outside *)
+Theorem C14_read_is_stream_slice : forall c fill ops b, 1 <= c -> wf_hist (sinit c fill) ops = true ->
+  fst (run (binit c fill) ops) = b ->
+  samples_ub b = zlen (logical ops) /\
+  (forall a e, a <= e ->
+     get_range_samples b (Some a) (Some e) =
+     if (samples_lb b <=? a) && (e <=? samples_ub b) then OData (slice (logical ops) a e)
+     else OIndexError) /\
+  (forall a e f, a <= e ->
+     get_range_filled b a e f =
+     OData (zrange (sample_or (logical ops) (samples_lb b) (samples_ub b) f) a (e - a))).
+Proof. exact read_is_stream_slice. Qed.
+Print Assumptions C14_read_is_stream_slice.
+
+(* ... and without invalidations every in-window read is a slice of the concatenation of everything appended *)
+Theorem C14_read_is_appended_slice : forall c fill ops b, 1 <= c -> wf_hist (sinit c fill) ops = true ->
+  no_invalidate ops = true -> fst (run (binit c fill) ops) = b ->
+  samples_ub b = zlen (appended ops) /\
+  forall a e, samples_lb b <= a -> a <= e -> e <= samples_ub b ->
+    get_range_samples b (Some a) (Some e) = OData (slice (appended ops) a e).
+Proof. exact read_is_appended_slice. Qed.
+Print Assumptions C14_read_is_appended_slice.
+
+(* Every op constructor and read variant of the model (ReadS with either bound omitted, ReadFilled, Latest
+   with and without fill, Bounds, Resize) is already quantified over by C14_refines_spec; what it leaves out
+   are reads with crossed bounds.  For the plain reads the refinement extends to those whose upper bound is
+   at most one capacity behind the newest sample (wf_hist_x; every wf_hist history is a wf_hist_x history:
+   ProofsX.wf_hist_wf_hist_x) ... *)
+Theorem C14_refines_spec_x : forall c fill ops, 1 <= c -> wf_hist_x (sinit c fill) ops = true ->
+  snd (run (binit c fill) ops) = snd (spec_run (sinit c fill) ops).
+Proof. exact refines_spec_x. Qed.
+Print Assumptions C14_refines_spec_x.
+
+(* ... and not further: a crossed read whose upper bound lies more than a capacity back wraps around as a
+   negative slice bound and returns samples for an empty request
+   (code: SignalBuffer(1, 3); append 1..5; get_range_samples(2, 1) -> [3, 4]) *)
+Theorem C14_crossed_read_refuted : exists c fill ops, 1 <= c /\
+  wf_hist (sinit c fill) (removelast ops) = true /\
+  (exists a e, last ops Bounds = ReadS (Some a) (Some e) /\ e < a) /\
+  snd (run (binit c fill) ops) <> snd (spec_run (sinit c fill) ops).
+Proof. exact crossed_read_refuted. Qed.
+Print Assumptions C14_crossed_read_refuted.
+
+Example C14_ex_x : wf_hist (sinit 3 0) [Append [1;2]; Invalidate 1; Append [3;4;5]] = true /\
+  logical [Append [1;2]; Invalidate 1; Append [3;4;5]] = [1;3;4;5] /\
+  (let b := fst (run (binit 3 0) [Append [1;2]; Invalidate 1; Append [3;4;5]]) in
+   samples_lb b = 1 /\ samples_ub b = 4 /\ samples_to_index b 2 = 1 /\ nth 1 (buf b) 0 = 4) /\
+  wf_hist_x (sinit 3 0) [Append [1;2;3;4;5]; ReadS (Some 4) (Some 2)] = true.
+Proof. vm_compute. repeat split; reflexivity. Qed.
